@@ -494,17 +494,20 @@ func (r *relay) outputBuffer(streamID uint32) *outputBuffer {
 // sendWindowUpdates sends WINDOW_UPDATE frames effectively acknowledging consumption of the
 // given data frame.
 func (r *relay) sendWindowUpdates(f *http2.DataFrame) error {
-	if len(f.Data()) == 0 {
+	// The entire frame payload counts against the sender's flow-control windows, including the pad
+	// length octet and the padding, so all of it must be credited back.
+	// See: https://tools.ietf.org/html/rfc7540#section-6.1
+	if f.Length == 0 {
 		return nil
 	}
 	r.destMu.Lock()
 	defer r.destMu.Unlock()
 	// First updates the connection level window.
-	if err := r.dest.WriteWindowUpdate(0, uint32(len(f.Data()))); err != nil {
+	if err := r.dest.WriteWindowUpdate(0, f.Length); err != nil {
 		return err
 	}
 	// Next updates the stream specific window.
-	return r.dest.WriteWindowUpdate(f.StreamID, uint32(len(f.Data())))
+	return r.dest.WriteWindowUpdate(f.StreamID, f.Length)
 }
 
 func (r *relay) decodeFull(data []byte) ([]hpack.HeaderField, error) {
